@@ -297,6 +297,11 @@ func NodeOf(nv xpath.NodeNavigator) *Node {
 			return nil
 		}
 		return x.Cur
+	case *NavAnyMove:
+		if x == nil {
+			return nil
+		}
+		return x.Cur
 	}
 	return nil
 }
@@ -412,4 +417,28 @@ func (n *NavNoMove) MoveTo(o xpath.NodeNavigator) bool { n.R.tick(); return fals
 
 func NewNavNoMove(n *Node, rec *Rec) xpath.NodeNavigator {
 	return &NavNoMove{Nav{D: n.Doc, Cur: n, R: rec}}
+}
+
+// NavAnyMove is a navigator whose MoveTo takes over the position of ANY navigator of its own type, also
+// one positioned in another document ("moves to the same position as the specified NodeNavigator" - the
+// interface does not promise a document check).
+type NavAnyMove struct{ Nav }
+
+func (n *NavAnyMove) Copy() xpath.NodeNavigator {
+	n.R.tick()
+	c := *n
+	return &c
+}
+func (n *NavAnyMove) MoveTo(o xpath.NodeNavigator) bool {
+	n.R.tick()
+	on, ok := o.(*NavAnyMove)
+	if !ok || on == nil {
+		return false
+	}
+	n.D, n.Cur = on.D, on.Cur
+	return true
+}
+
+func NewNavAnyMove(n *Node, rec *Rec) xpath.NodeNavigator {
+	return &NavAnyMove{Nav{D: n.Doc, Cur: n, R: rec}}
 }
